@@ -280,7 +280,8 @@ func (s *state) doReturn(rs []Val, d *ssa.Return) {
 		save := s.pc
 		s.pc = sc.pc
 		s.oblige("ensures", clauseLabel(c, i), c.src, goal, d.Pos(), site, c.deep)
-		s.pc = save
+		// later clauses may rely on earlier ones (proving E1, then E2 under E1, proves both)
+		s.pc = append(save, goal)
 	}
 	u.returns++
 	u.covers = append(u.covers, &oblig{name: u.name() + "#cover." + site, kind: "cover", pc: append([]string(nil), s.pc...), goal: "false", clause: "return reachable", path: u.npaths})
